@@ -662,6 +662,7 @@ def judge(spec, out, edits=None):
                  % (shape, n, at, b2[n:n + 8].hex(), b[n:n + 8].hex()), at=at)
       elif edits is not None:
         _edit_clause(b, d, shape, out, edits)
+        _reparent_clause(b, d, spec, shape, out)
   return b
 
 
@@ -886,6 +887,135 @@ def _edit_clause(b, d0, shape, out, edits):
         continue
       if b3 != b2:
         out.fail("edit", "%s: after setting %s, re-serialising the re-parsed packet gives other bytes" % (shape, label), edited=label, what="repack")
+
+
+# --------------------------------------------------------------------------- re-parenting (the NAT / proxy pattern)
+
+def _new_ip(x, L, cross):
+  """a freshly built IP header with other addresses carrying what x carries; cross=True: of the other IP version"""
+  pkt, IPAddr, IPAddr6 = L["pkt"], L["IPAddr"], L["IPAddr6"]
+  v4 = type(x).__name__ == "ipv4"
+  s, d = x.srcip.raw, x.dstip.raw
+  if v4 != cross:               # result is IPv4
+    if v4:
+      src, dst = IPAddr(s[:3] + bytes([s[3] ^ 0x55])), IPAddr(d[:3] + bytes([d[3] ^ 0x2a]))
+      return pkt.ipv4(srcip=src, dstip=dst, tos=x.tos, id=x.id ^ 1, flags=x.flags, frag=x.frag, ttl=x.ttl ^ 1, protocol=x.protocol,
+                      raw_options=x.raw_options, hl=x.hl)
+    return pkt.ipv4(srcip=IPAddr(s[12:]), dstip=IPAddr(d[12:]), ttl=x.hop_limit, protocol=x.payload_type, id=1)
+  if not v4:
+    src, dst = IPAddr6(s[:15] + bytes([s[15] ^ 0x55]), raw=True), IPAddr6(d[:15] + bytes([d[15] ^ 0x2a]), raw=True)
+    return pkt.ipv6(srcip=src, dstip=dst, tc=x.tc, flow=x.flow ^ 1, hop_limit=x.hop_limit ^ 1, next_header_type=x.next_header_type,
+                    extension_headers=list(x.extension_headers))
+  return pkt.ipv6(srcip=IPAddr6(b"\x20\x01\x0d\xb8" + b"\0" * 8 + s, raw=True), dstip=IPAddr6(b"\x20\x01\x0d\xb8" + b"\0" * 8 + d, raw=True),
+                  hop_limit=x.ttl, next_header_type=x.protocol)
+
+
+def _reparent_targets(layers):
+  """[(layer index, cross)]: IP layers that can be replaced by a fresh header"""
+  out = []
+  for i, x in enumerate(layers):
+    cn = type(x).__name__
+    if cn not in ("ipv4", "ipv6") or i == 0:
+      continue
+    par = type(layers[i - 1]).__name__
+    if par not in ("ethernet", "vlan", "llc", "gre"):
+      continue                  # quoted datagrams inside ICMP errors are not re-addressed
+    if par == "llc" and not layers[i - 1].has_snap:
+      continue
+    out.append((i, False))
+    nxt = type(x.next).__name__
+    if nxt in ("tcp", "udp") and par in ("ethernet", "vlan") and not (cn == "ipv4" and x.frag):
+      out.append((i, True))     # the other IP version is meaningful for TCP / UDP
+  return out
+
+
+def _reparent_clause(b, d0, spec, shape, out):
+  """parse (or assemble) -> build a NEW outer IP header with other addresses -> new.payload = old.payload -> parent.payload = new ->
+  pack.  The transport checksums must cover the new addresses, lengths must be right, and the result must survive the round trip."""
+  L = setup()
+  pkt, packet_base = L["pkt"], L["packet_base"]
+  n_targets = len(_reparent_targets(_chain(pkt.ethernet(b), packet_base)[0]))
+  pay0 = b[d0.payload[0]:d0.payload[1]] if d0.payload else None
+  for source in ("parsed", "assembled"):
+    for ti in range(n_targets):
+      top = pkt.ethernet(b) if source == "parsed" else assemble(spec)
+      ls = _chain(top, packet_base)[0]
+      tg = _reparent_targets(ls)
+      if ti >= len(tg):
+        continue
+      i, cross = tg[ti]
+      old = ls[i]
+      v4 = type(old).__name__ == "ipv4"
+      label = "%s->%s" % (type(old).__name__, ("ipv6" if v4 else "ipv4") if cross else type(old).__name__)
+      try:
+        new = _new_ip(old, L, cross)
+        if old.next is not None:
+          new.payload = old.next
+        par = ls[i - 1]
+        par.payload = new
+        if cross:
+          et = 0x86dd if v4 else 0x0800
+          if type(par).__name__ == "ethernet":
+            par.type = et
+          else:
+            par.eth_type = et
+        for x in ls:
+          if type(x).__name__ == "gre" and x.csum is not None:
+            x.csum = True
+        b2 = top.pack()
+      except Exception as e:
+        _exc(out, e, "reparent", under=label, source=source, what="pack")
+        continue
+      out.label("reparented:" + label)
+      exp = list(d0.protos())
+      if cross:
+        ips = [j for j, pn in enumerate(exp) if pn in ("ipv4", "ipv6")]
+        j = ips[sum(1 for x in ls[:i] if type(x).__name__ in ("ipv4", "ipv6"))]
+        rest = exp[j + 1:]
+        while rest and rest[0].startswith("ipv6."):
+          rest = rest[1:]                       # the replaced IPv6 header's extension headers are gone
+        exp = exp[:j] + ["ipv6" if v4 else "ipv4"] + rest
+      d2 = P.dissect(b2)
+      if d2.error is not None or d2.protos() != exp:
+        out.fail("reparent", "%s: after putting the %s payload of the %s packet under a new %s header the frame dissects as %s (%s), expected %s\n%s"
+                 % (shape, type(old).__name__, source, label.split(">")[1], d2.protos(), d2.error, exp, b2.hex()[:600]),
+                 under=label, source=source, what="wire-structure")
+        continue
+      for c in d2.bad_checks():
+        if c["name"] == "802.3.length":
+          continue              # kept by the caller
+        out.fail("reparent", "%s: %s payload of the %s packet under a new %s header: %s at offset %d is %r, the reference says %r\n%s"
+                 % (shape, type(old).__name__, source, label.split(">")[1], c["name"], c["off"], c["got"], c["want"], b2.hex()[:600]),
+                 under=label, source=source, what="wire:" + c["name"])
+      if pay0 is not None and (b2[d2.payload[0]:d2.payload[1]] if d2.payload else None) != pay0:
+        out.fail("reparent", "%s: payload changed under the new %s header" % (shape, label), under=label, source=source, what="payload")
+      try:
+        r = pkt.ethernet(b2)
+      except Exception as e:
+        _exc(out, e, "reparent", under=label, source=source, what="parse")
+        continue
+      want = _snapshot(_chain(top, packet_base)[0], L)
+      got = _snapshot(_chain(r, packet_base)[0], L)
+      if [c for c, _ in got] != [c for c, _ in want]:
+        out.fail("reparent", "%s: under the new %s header the frame parses as %s, built %s" % (shape, label, [c for c, _ in got], [c for c, _ in want]),
+                 under=label, source=source, what="chain")
+        continue
+      bad = False
+      for (cn, fa), (_, fr) in zip(want, got):
+        for f in fa:
+          if fa[f] != fr[f]:
+            bad = True
+            out.fail("reparent", "%s: under the new %s header %s.%s reads %s, the object says %s" % (shape, label, cn, f, _short(fr[f]), _short(fa[f])),
+                     under=label, source=source, what="field:%s.%s" % (cn, f))
+      if not bad:
+        try:
+          b3 = r.pack()
+        except Exception as e:
+          _exc(out, e, "reparent", under=label, source=source, what="repack")
+          continue
+        if b3 != b2:
+          out.fail("reparent", "%s: re-serialising the re-parsed frame under the new %s header gives other bytes" % (shape, label),
+                   under=label, source=source, what="repack")
 
 
 def _variants(spec):
@@ -1171,6 +1301,11 @@ def enum_limits(tier):
   for n in (0, 1, 2, 127, 254, 255):
     for k in (0, 43, 60):
       out.append(("ipv6-ext%d-len%d" % (k, n), [e, dict(ip6, ext=[{"k": k, "body": B(6 + 8 * n)}]), u, pay]))
+  for n in (0, 1, 255):
+    for k in (0, 43, 60):
+      out.append(("ipv6-ext%d-len%d-nonext" % (k, n), [e, dict(ip6, nh=59, ext=[{"k": k, "body": B(6 + 8 * n)}]), P.NOPAY]))
+      out.append(("ipv6-ext%d-len%d-raw0" % (k, n), [e, dict(ip6, nh=253, ext=[{"k": k, "body": B(6 + 8 * n)}]), P._raw(0)]))
+  out.append(("ipv6-ext-chain8-nonext", [e, dict(ip6, nh=59, ext=[{"k": k, "body": B(6 + 8 * i)} for i, k in enumerate([0, 60, 43, 60, 0, 43, 60, 60])]), P.NOPAY]))
   out.append(("ipv6-ext-chain8", [e, dict(ip6, ext=[{"k": k, "body": B(6 + 8 * i)} for i, k in enumerate([0, 60, 43, 60, 0, 43, 60, 60])]), {"t": "tcp"}, pay]))
   # ND options: length octet 1..255 (8..2040 octets)
   for n in (1, 2, 254, 255):
